@@ -40,6 +40,7 @@ REQUIRED = [
     "DaeVerif.C13.Props.ep_created_is_fresh",
     "DaeVerif.C13.Props.ep_dead_and_closed_are_final",
     "DaeVerif.C13.Props.ep_never_handed_out_again",
+    "DaeVerif.C13.Props.ep_stale_generation_not_handed_out",
     "DaeVerif.C13.Props.ep_retire_spec",
     "DaeVerif.C13.Props.ep_transport_closed_once_with_endpoint",
     "DaeVerif.C13.Props.ep_close_releases_once",
